@@ -176,19 +176,21 @@ def forced_cases(tier, rng, drv):
         (6, 3, 40, 120),   # zstd: P (2,2) + M (4,4)
         (0, 4, 40, 160),   # one call, three page loads in M              (6,6)
         (1, 4, 40, 160),
+        (5, 2, 40, 40, "ild"),   # three columns, three threads: P (2,2,2) and M (2,2,2): 90 orders each
     ]
-    glines = [f"gates {fspec(codec, 'il', 1, npages, rpp, 7)} fread {batch}" for codec, npages, rpp, batch in layouts]
+    layouts = [l if len(l) == 5 else l + ("il",) for l in layouts]
+    glines = [f"gates {fspec(codec, types, 1, npages, rpp, 7)} fread {batch}" for codec, npages, rpp, batch, types in layouts]
     gout, rc, err = vlib.run_lines(drv, glines, env=san_env())
     if rc != 0 or len(gout) != len(glines):
         return None, f"gate structure run failed rc={rc}: {err[-800:]}"
-    for (codec, npages, rpp, batch), gl in zip(layouts, gout):
+    for (codec, npages, rpp, batch, types), gl in zip(layouts, gout):
         g = parse_kv(gl)
         if g["_status"] != "OK":
             return None, f"gate structure: {gl}"
         if g.get("hook") != "1":
             return None, "the library was built without the CARQUET_VERIF io-yield hook"
         regs = regions_of(g)
-        spec = fspec(codec, "il", 1, npages, rpp, 7)
+        spec = fspec(codec, types, 1, npages, rpp, 7)
         for ri, (call, ph, counts) in enumerate(regs):
             alls = list(interleavings(counts))
             total = len(alls)
@@ -204,7 +206,7 @@ def forced_cases(tier, rng, drv):
                         per_region.append(toks)
                     else:
                         per_region.append("".join(str(c) * n for c, n in enumerate(cnt2)))
-                line = f"batch {spec} fread {batch} 2 f:{''.join(per_region)}"
+                line = f"batch {spec} fread {batch} {len(types)} f:{''.join(per_region)}"
                 cases.append({"line": line, "regions": regs, "tokens": per_region, "gates": g, "target": ri})
     return cases, None
 
@@ -308,7 +310,7 @@ def check_forced(rep, tier, rng, drv, runner):
         if kv.get("eq") != "1":
             n_viol += 1
             rep.violation(
-                f"fread mode, 2 threads, schedule {'forced' if realised else 'attempted'} through the yield hook "
+                f"fread mode, {li.split()[10]} threads, schedule {'forced' if realised else 'attempted'} through the yield hook "
                 f"(release order {'/'.join(c['tokens'])}): statuses {kv.get('st')} vs {kv.get('base')} single-threaded, "
                 f"{kv.get('wrong')} read(s) at another column's stream position",
                 {"case": li, "impl": " ".join(f"{k}={v}" for k, v in kv.items() if k != "_status")})
@@ -351,6 +353,25 @@ def check_forced(rep, tier, rng, drv, runner):
 
 
 # ------------------------------------------------------------------------------------ thread sweep
+
+def check_corpus(rep, drv):
+    lines = []
+    for f in sorted((vlib.VERIF / "corpus" / PID).glob("*.case")):
+        for ln in f.read_text().splitlines():
+            if ln.strip() and not ln.startswith("#"):
+                lines.append(ln.replace("{D}", str(tmpdir())))
+    if not lines:
+        return
+    out, probs = run_sharded(drv, lines, env=san_env(), shards=min(len(lines), vlib.NCPU))
+    for pr in probs:
+        rep.violation(f"corpus case crashed (driver rc={pr[1]}): {san_summary(pr[2])}", {"case": pr[3]})
+    for li, o in zip(lines, out):
+        rep.count("corpus " + li)
+        kv = parse_kv(o)
+        if kv["_status"] == "OK" and kv.get("eq") != "1":
+            rep.violation(f"corpus case: statuses {kv.get('st')} vs {kv.get('base')} single-threaded (content equal: {kv.get('st') == kv.get('base')})",
+                          {"case": li, "impl": o[:1200]})
+
 
 def check_sweep(rep, tier, rng, drv):
     threads = list(range(2, 17)) if tier == "thorough" else [2, 3, 4, 7, 8, 16]
@@ -588,6 +609,7 @@ def run(tier):
         rep.tie_broken("harness does not build against the current tree: " + str(e)[:700])
         return rep.finish()
     check_shared_state(rep)
+    check_corpus(rep, drv)
     check_model(rep, runner)
     check_forced(rep, tier, rng, drv, runner)
     check_sweep(rep, tier, rng, drv)
